@@ -89,6 +89,13 @@ CHECKS.update({
    SVM + " Hook H2 is trusted for the crossing record; candidate ticks sit on five slots per array; an internal wall cap may cut the largest layouts (then exhaustive=false is reported).", "DESIGN.md §3 C10"),
 })
 
+CHECKS.update({
+ "C14": (A, "model_checking",
+   "explicit-state search over swap / clock sequences on adaptive-fee pools with a per-step oracle from the H2 trace against a reference schedule without the skip optimisation; control-factor-0 twin differential; function-level bounded-exhaustive enumeration of the fee state machine",
+   "Every recorded step of every swap in every sequence within the depth bound charges the reference rate of every tick group it touches, within [static, 10%], accumulator <= max; stored reference / accumulator / major-swap timestamp follow the documented rules; control factor 0 == static-fee twin; trading refused before the enable time. Function level: 1728 validated constant sets x variable states x elapsed classes, loop walks incl. skipped, saturated and boundary endings.",
+   SVM + " Hook H2 is trusted for per-step rate, bounded target and skip flag. Tick spacing 64 and 4 constant sets at instruction level; the wide constant/variable quantifier is carried by the function-level walks.", "DESIGN.md §3 C14"),
+})
+
 NOT_APPLICABLE = {
 }
 PENDING_REASON = "check not built yet (build in progress; see DESIGN.md §8)"
